@@ -29,6 +29,8 @@ from harness.props.c07 import fr, rs, parse_rat, make_code, make_model, deformat
 
 LETTERS = 'IXYZ'
 
+warnings.filterwarnings('ignore')
+
 
 class StubMismatch(Exception):
     """the class sampled through something else than the three `numpy.random.choice` calls per step
@@ -659,7 +661,7 @@ def estimator_stream(ctx, rng):
     from harness import core
     from harness.core import Stream
     s = Stream('splitting-estimator')
-    inputs = [random_estimator_input(rng) for _ in range(400 if ctx.thorough else 120)]
+    inputs = [random_estimator_input(rng) for _ in range(400 if ctx.thorough else 80)]
     ops = [f'sp.est {st} {rs(p0)} {chains_tok(ch)}' for st, p0, ch in inputs]
     outs = core.driver(ops + [f'sp.margin {st} {chains_tok(ch)}' for st, p0, ch in inputs])
     models, margins = outs[:len(ops)], outs[len(ops):]
@@ -677,3 +679,324 @@ def estimator_stream(ctx, rng):
             tag = 'no-pair' if cs == ['-'] else ('some-sign-change' if any(c != '1/1' for c in cs) else 'fallback-c=1')
         s.add(op, ans, {'start_run': st, 'p0': rs(p0), 'recorded': [[rs(q) for q in c] for c in ch]}, tag=tag)
     return s.run()
+
+
+# ------------------------------------------------------------------ oracle (implementation only, mechanism-free)
+
+TAIL = 1e-10   # level of the exact binomial confidence intervals of the transition frequencies
+
+
+def letter_of(x, z):
+    return {(0, 0): 'I', (1, 0): 'X', (1, 1): 'Y', (0, 1): 'Z'}[(int(bool(x)), int(bool(z)))]
+
+
+def stated_prob(dists, e):
+    n = len(dists)
+    q = Fraction(1)
+    for i in range(n):
+        q *= dists[i][letter_of(e[i], e[n + i])]
+    return q
+
+
+def ref_fails(code, total):
+    """reference for `the residual is a logical error or has a syndrome`: symplectic products in plain integers"""
+    n = code.n
+    t = np.array(total, dtype=np.int64) % 2
+    sw = np.concatenate([t[n:], t[:n]])
+    H = np.asarray(code.stabilizer_matrix.toarray(), dtype=np.int64).reshape(-1, 2 * n)
+    L = np.vstack([np.asarray(code.logicals_x, dtype=np.int64), np.asarray(code.logicals_z, dtype=np.int64)])
+    return bool(((H @ sw) % 2).any() or ((L @ sw) % 2).any())
+
+
+def decode_fails(code, dec, e):
+    e = np.array(e, dtype=np.uint8)
+    H = np.asarray(code.stabilizer_matrix.toarray(), dtype=np.int64).reshape(-1, 2 * code.n)
+    sw = np.concatenate([e[code.n:], e[:code.n]]).astype(np.int64)
+    syn = ((H @ sw) % 2).astype(np.uint8)
+    corr = np.asarray(dec.decode(syn)).astype(np.int64)
+    return ref_fails(code, (corr + e) % 2)
+
+
+def neighbours(dists, prev):
+    """[(index, letter, error)] of the single-qubit moves the stated channel allows from `prev`"""
+    n = len(dists)
+    out = []
+    for i in range(n):
+        for c in 'XYZ':
+            if dists[i][c] == 0:
+                continue
+            t = list(prev)
+            if c in 'XY':
+                t[i] ^= 1
+            if c in 'ZY':
+                t[n + i] ^= 1
+            out.append((i, c, t))
+    return out
+
+
+def oracle_objects(case):
+    code = make_code(case['code'], tuple(case['size']))
+    r = [parse_rat(x) for x in case['r']]
+    em = make_model(r, case.get('deformation'), case.get('kwargs'))
+    words = deformation_words(code, case.get('deformation'), case.get('kwargs'))
+    return code, em, r, words
+
+
+def quiet():
+    st = contextlib.ExitStack()
+    st.enter_context(warnings.catch_warnings())
+    warnings.simplefilter('ignore')
+    st.enter_context(np.errstate(all='ignore'))
+    st.enter_context(contextlib.redirect_stdout(io.StringIO()))
+    return st
+
+
+def cp_interval(k, N, alpha):
+    """exact (Clopper-Pearson) two-sided confidence interval for a binomial proportion"""
+    from scipy.stats import beta
+    lo = 0.0 if k == 0 else float(beta.ppf(alpha / 2, k, N - k + 1))
+    hi = 1.0 if k == N else float(beta.ppf(1 - alpha / 2, k + 1, N - k))
+    return lo, hi
+
+
+def check_kernel(case):
+    """`split-kernel`: N independent calls of the real get_next_error from one failing error s (real numpy
+    generators, whatever the class samples with).  Hard checks on every outcome: it is s or a single-qubit
+    neighbour of non-zero probability that fails to decode, returned with the log of its stated probability.
+    Statistical check, independent of how the qubit and the letter are proposed (any fixed proposal g):
+    for a neighbour t the frequency of s -> t estimates g*min(1, P(t)/P(s)) and, from N calls started at t, the
+    frequency of t -> s estimates g*min(1, P(s)/P(t)); the two exact (Clopper-Pearson, level 1e-10) confidence
+    intervals for g must intersect.  A wrong or inverted likelihood ratio separates them."""
+    from panqec.simulation import SplittingSimulation
+    code, em, r, words = oracle_objects(case)
+    n = code.n
+    p = parse_rat(case['p'])
+    dists = [stated_dist(p, r, None if words is None else words[i]) for i in range(n)]
+    dec = make_decoder(case['decoder'], code, em, p, salt=case.get('salt', 0))
+    prev = [int(c) for c in case['previous']]
+    pp = stated_prob(dists, prev)
+    if pp == 0 or any(all(dists[i][c] == 0 for c in 'XYZ') for i in range(n)):
+        return None
+    N = case['N']
+
+    def sample(start, seed):
+        np.random.seed(seed)
+        sim = SplittingSimulation(code, em, [dec], [float(p)], n_init_runs=1, verbose=False,
+                                  rng=np.random.default_rng(seed))
+        arr = np.array(start, dtype=np.uint8)
+        counts, lps = {}, {}
+        for _ in range(N):
+            nxt, lp = sim.get_next_error(dec, float(p), arr)
+            key = tuple(int(x) for x in nxt)
+            counts[key] = counts.get(key, 0) + 1
+            lps[key] = float(lp)
+        return counts, lps
+
+    def hard(start, counts, lps):
+        allowed = {tuple(t) for _, _, t in neighbours(dists, start)}
+        for key in counts:
+            want = stated_prob(dists, list(key))
+            ref = math.log(want.numerator) - math.log(want.denominator) if want > 0 else float('-inf')
+            if not (lps[key] == ref or abs(lps[key] - ref) <= 1e-9 * (1 + abs(ref))):
+                return (f'returned log-probability {lps[key]!r} with the error {vec(key)}, whose stated probability has '
+                        f'logarithm {ref!r}')
+            if key == tuple(start):
+                continue
+            if key not in allowed:
+                return (f'moved from {vec(start)} to {vec(key)}: not the previous error times one single-qubit Pauli '
+                        f'of non-zero probability')
+            if want == 0 or not decode_fails(code, dec, list(key)):
+                return f'moved from {vec(start)} to {vec(key)}, an error of probability 0 or one that this decoder corrects'
+        return None
+
+    with quiet():
+        c1, l1 = sample(prev, case['seed'])
+        msg = hard(prev, c1, l1)
+        if msg:
+            return msg
+        if not decode_fails(code, dec, prev):
+            return None
+        cand = []
+        for i, c, t in neighbours(dists, prev):
+            pt = stated_prob(dists, t)
+            if pt > 0 and decode_fails(code, dec, t):
+                cand.append((abs(math.log(pt / pp)), t, pt))
+        cand.sort(key=lambda x: -x[0])
+        for j, (_, t, pt) in enumerate(cand[:case.get('pairs', 2)]):
+            c2, l2 = sample(t, case['seed'] + 1 + j)
+            msg = hard(t, c2, l2)
+            if msg:
+                return msg
+            q1, q2 = float(min(Fraction(1), pt / pp)), float(min(Fraction(1), pp / pt))
+            k1, k2 = c1.get(tuple(t), 0), c2.get(tuple(prev), 0)
+            lo1, hi1 = cp_interval(k1, N, TAIL)
+            lo2, hi2 = cp_interval(k2, N, TAIL)
+            if lo1 / q1 > hi2 / q2 or lo2 / q2 > hi1 / q1:
+                return (f'{vec(prev)} -> {vec(t)} happened {k1} times in {N} calls and the reverse {k2} times in {N}; '
+                        f'the stated probabilities give acceptance min(1, P(t)/P(s)) = {q1:.4f} and {q2:.4f} for the '
+                        f'reverse: no proposal probability is compatible with both (exact 1e-10 confidence intervals '
+                        f'[{lo1 / q1:.4f}, {hi1 / q1:.4f}] and [{lo2 / q2:.4f}, {hi2 / q2:.4f}])')
+    return None
+
+
+def check_run(case):
+    """`split-run`: a real seeded run through the public methods; every step observed at the boundary of
+    get_next_error must be a stay or a single-qubit move into the failure set of that chain's decoder, every
+    recorded value the log of the stated probability (at that chain's rate) of the error the chain is in, and
+    the counters / lists of the results consistent."""
+    from panqec.simulation import SplittingSimulation
+    code, em, r, words = oracle_objects(case)
+    n = code.n
+    rates_in = [parse_rat(x) for x in case['rates']]
+    srt = sorted(rates_in, reverse=True)
+    dists = [[stated_dist(p, r, None if words is None else words[i]) for i in range(n)] for p in srt]
+    decs = [make_decoder(case['decoder'], code, em, p, salt=case.get('salt', 0)) for p in rates_in]
+    obs = []
+    with quiet():
+        np.random.seed(case['seed'])
+        sim = SplittingSimulation(code, em, decs, [float(p) for p in rates_in], n_init_runs=case['n_init'],
+                                  verbose=False, rng=np.random.default_rng(case['seed']))
+        real = sim.get_next_error
+
+        def spy(decoder, error_rate, previous_error):
+            out = real(decoder, error_rate, previous_error)
+            obs.append((decoder, float(error_rate), [int(x) for x in previous_error], [int(x) for x in out[0]], float(out[1])))
+            return out
+        sim.get_next_error = spy
+        total = 0
+        try:
+            for k in case['runs']:
+                sim.run(k)
+                total += k
+        except NotImplementedError:
+            return None            # no logical of non-zero probability: the class declines (documented)
+        except ValueError as e:
+            if 'does not fail' in str(e):
+                return None
+            raise
+        res = sim._results
+        R = len(srt)
+        if int(res['n_runs']) != total:
+            return f"n_runs = {res['n_runs']} after run() calls adding up to {total}"
+        if len(res['log_p_errors']) != R or any(len(l) != total for l in res['log_p_errors']):
+            return f"log_p_errors has lengths {[len(l) for l in res['log_p_errors']]}, expected {R} lists of {total}"
+        if len(obs) != total * R:
+            return f'{len(obs)} chain steps for {total} sweeps over {R} error rates'
+        for k, (decoder, rate, prev, nxt, lp) in enumerate(obs):
+            i = k % R
+            if abs(rate - float(srt[i])) > 1e-15 or decoder is not decs[i]:
+                return f'step {k}: chain {i} stepped at rate {rate!r} / with another decoder than decoders[{i}]'
+            want = stated_prob(dists[i], nxt)
+            ref = math.log(want.numerator) - math.log(want.denominator) if want > 0 else float('-inf')
+            if not (lp == ref or abs(lp - ref) <= 1e-9 * (1 + abs(ref))):
+                return f'step {k}: returned log-probability {lp!r}, the error {vec(nxt)} has stated log-probability {ref!r}'
+            if float(res['log_p_errors'][i][k // R]) != lp:
+                return f'step {k}: recorded {res["log_p_errors"][i][k // R]!r}, returned {lp!r}'
+            if nxt != prev:
+                if not any(t == nxt for _, _, t in neighbours(dists[i], prev)):
+                    return f'step {k}: moved from {vec(prev)} to {vec(nxt)}: not one single-qubit Pauli of non-zero probability'
+                if not decode_fails(code, decs[i], nxt):
+                    return f'step {k}: chain {i} moved to {vec(nxt)}, which its decoder corrects'
+        for i in range(R):
+            last = [o for j, o in enumerate(obs) if j % R == i]
+            if last and [int(x) for x in sim.current_error[i]] != last[-1][3]:
+                return f'current_error[{i}] is not the error returned by the last step of chain {i}'
+        sim.postprocess()
+        out = sim.get_results()
+    pe = np.atleast_1d(out['p_est'])
+    if len(pe) != R or len(np.atleast_1d(out['p_se'])) != R or int(out['n_runs']) != total:
+        return f"get_results: {len(pe)} estimates for {R} error rates, n_runs {out['n_runs']} for {total} sweeps"
+    k0 = float(pe[0]) * case['n_init']
+    if not (0 <= float(pe[0]) <= 1 and abs(k0 - round(k0)) < 1e-9):
+        return f"p_est[0] = {float(pe[0])!r} is not a failure frequency of {case['n_init']} direct trials"
+    return None
+
+
+def check_estimator(case):
+    """`split-estimator`: a one-qubit code (no stabilizer; every non-identity Pauli is a failure) under a channel
+    with r_x, r_y, r_z all different.  Every failing error e has the SAME likelihood ratio P_{p'}(e)/P_p(e) =
+    p'/p between two rates, which is also the ratio of the failure probabilities.  The acceptance-ratio
+    estimator of the splitting method (Bravyi-Vargo, the reference the class cites) is then exact for any
+    sample and any constant C: p_est[j+1]/p_est[j] must equal p_{j+1}/p_j up to rounding, whatever the seed."""
+    from panqec.simulation import SplittingSimulation
+    code, em, r, words = oracle_objects(case)
+    rates_in = [parse_rat(x) for x in case['rates']]
+    srt = sorted(rates_in, reverse=True)
+    decs = [make_decoder(case['decoder'], code, em, p) for p in rates_in]
+    with quiet():
+        np.random.seed(case['seed'])
+        sim = SplittingSimulation(code, em, decs, [float(p) for p in rates_in], n_init_runs=case['n_init'],
+                                  verbose=False, rng=np.random.default_rng(case['seed']))
+        sim.run(case['N'])
+        sim.postprocess()
+        pe = [float(x) for x in np.atleast_1d(sim.get_results()['p_est'])]
+    if pe[0] == 0:
+        return None
+    for j in range(len(srt) - 1):
+        want = float(srt[j + 1] / srt[j])
+        got = pe[j + 1] / pe[j] if pe[j] != 0 else float('nan')
+        if not abs(got - want) <= 1e-6 * want:
+            return (f'p_est = {pe}: p_est[{j + 1}]/p_est[{j}] = {got!r}, but every failing error has likelihood ratio '
+                    f'{want!r} between the rates {float(srt[j])} and {float(srt[j + 1])} (so has the failure probability): '
+                    f'the factors are not likelihood ratios')
+    return None
+
+
+CHECKS = {'split-kernel': check_kernel, 'split-run': check_run, 'split-estimator': check_estimator}
+
+
+def oracle_cases(ctx, deep):
+    rng = ctx.np_rng(1881)
+    cases = []
+    kernel_codes = [('Planar2DCode', (2, 2), 'matching'), ('Toric2DCode', (2, 1), 'coset'), ('Planar2DCode', (2, 1), 'hash'),
+                    ('Cyc3', (2, 1), 'coset'), ('RotatedPlanar2DCode', (2, 2), 'matching'), ('Toric3DCode', (1, 1, 1), 'zero')]
+    from harness.props.c07 import deformation_options
+    for name, size, kind in kernel_codes[:None if deep else 3]:
+        code = make_code(name, size)
+        n = code.n
+        opts = deformation_options(name)
+        for rep in range(3 if deep else 1):
+            dname, dkw = opts[int(rng.integers(len(opts)))]
+            r = [Fraction(1, 4), Fraction(1, 4), Fraction(1, 2)] if rep % 2 == 0 else [Fraction(5, 8), Fraction(1, 8), Fraction(1, 4)]
+            p = [Fraction(1, 4), Fraction(1, 8), Fraction(3, 8)][int(rng.integers(3))]
+            words = deformation_words(code, dname, dkw)
+            dists = [stated_dist(p, r, None if words is None else words[i]) for i in range(n)]
+            dec = make_decoder(kind, code, make_model(r, dname, dkw), p, salt=0)
+            for _ in range(20):
+                letters = [[c for c in LETTERS if dists[i][c] != 0][int(rng.integers(4))] for i in range(n)]
+                prev = [1 if c in 'XY' else 0 for c in letters] + [1 if c in 'ZY' else 0 for c in letters]
+                if decode_fails(code, dec, prev):
+                    break
+            cases.append({'kind': 'split-kernel', 'code': name, 'size': list(size), 'deformation': dname, 'kwargs': dkw,
+                          'r': [rs(x) for x in r], 'p': rs(p), 'decoder': kind, 'salt': 0,
+                          'previous': vec(prev), 'N': 4000 if deep else 1500, 'pairs': 3 if deep else 2, 'seed': int(rng.integers(2 ** 31))})
+    for k in range(12 if deep else 5):
+        name, size = CHAIN_CODES[int(rng.integers(len(CHAIN_CODES)))]
+        code = make_code(name, size)
+        kind = ['zero', 'hash', 'coset', 'matching'][int(rng.integers(4))]
+        if kind == 'matching' and name not in ('Toric2DCode', 'Planar2DCode', 'RotatedPlanar2DCode'):
+            kind = 'zero'
+        if kind == 'coset' and code.n > 5:
+            kind = 'hash'
+        opts = deformation_options(name)
+        dname, dkw = opts[int(rng.integers(len(opts)))]
+        r = DIRECTIONS[int(rng.integers(2))]
+        cases.append({'kind': 'split-run', 'code': name, 'size': list(size), 'deformation': dname, 'kwargs': dkw,
+                      'r': [rs(x) for x in r], 'rates': list(RATE_SETS[int(rng.integers(len(RATE_SETS)))]),
+                      'decoder': kind, 'salt': int(rng.integers(100)), 'n_init': int(rng.integers(1, 6)),
+                      'runs': [int(x) for x in rng.integers(0, 6, int(rng.integers(1, 4)))] + [2],
+                      'seed': int(rng.integers(2 ** 31))})
+    for k in range(3 if deep else 1):
+        cases.append({'kind': 'split-estimator', 'code': 'Planar2DCode', 'size': [1, 1], 'deformation': None, 'kwargs': {},
+                      'r': ['1/2', '1/4', '1/4'], 'rates': ['1/2', '1/4', '1/8'], 'decoder': 'zero', 'n_init': 64,
+                      'N': 200, 'seed': 7 + k})
+    return cases
+
+
+def check_case(case):
+    try:
+        return CHECKS[case['kind']](case)
+    except DecoderFailure:
+        return None
+    except Exception as e:  # noqa
+        return f'raised {type(e).__name__}: {e}'
